@@ -129,3 +129,10 @@ Proof. intros H se sup. unfold session_has_timer, session_has_timer_form. rewrit
 
 Lemma session_timer_needs_supported : session_has_timer_form false true false = false.
 Proof. reflexivity. Qed.
+
+(* ---- C10 (guards) ---- *)
+Lemma guard_drop_here : usage_guard_drop_waits = true -> forall held, guard_drop_removes held = true.
+Proof. intros H held. unfold guard_drop_removes, guard_drop_removes_form. rewrite H. reflexivity. Qed.
+
+Lemma guard_drop_try_lock_refuted : guard_drop_removes_form false true = false.
+Proof. reflexivity. Qed.
